@@ -259,7 +259,11 @@ pub fn gen_plan(property: &str, seed: u64, index: u64, tier: Tier) -> Plan {
         gen_dfs(&mut rng, &cfg, &start, depth, width, &mut ops, &mut budget);
     } else {
         scenario = "random-history";
-        let policy = *rng.pick(&cfg.policies);
+        let mut policy = *rng.pick(&cfg.policies);
+        if property == "C04" && index % 3 == 0 && rng.chance(3, 4) {
+            // registered runs: recurrences matter, so shuffle
+            policy = Policy::Shuffle;
+        }
         let len = rng.range(cfg.min_len, cfg.max_len);
         let mut stack: Vec<Pos> = vec![start.clone()];
         let mut own: Vec<Option<Mv>> = vec![None, None]; // last move per side
@@ -689,6 +693,27 @@ pub fn exec(plan: &Plan) -> Outcome {
                     if expect >= 3 {
                         stats.bump("probe/third-occurrence");
                     }
+                    if prop == "C17" && next.half < 100 && next.has_legal_move() {
+                        set_phase("verdict");
+                        let e = game_ending(&mut board, &mut gen, color(next.stm));
+                        let is_draw = matches!(e, Some(GameEnding::Draw));
+                        evals += 1;
+                        if expect == 3 && !is_draw {
+                            violate!(
+                                i,
+                                "C17/third-registered-occurrence-not-reported-as-draw".to_string(),
+                                format!("{} registered for the third time (plies since capture or pawn move: {}) but game_ending = {:?}", next.to_fen(), next.half, e)
+                            );
+                        }
+                        if expect < 3 && is_draw {
+                            violate!(
+                                i,
+                                "C17/draw-reported-before-the-third-occurrence".to_string(),
+                                format!("{} registered {} time(s) but game_ending = {:?}", next.to_fen(), expect, e)
+                            );
+                        }
+                        set_phase("register");
+                    }
                     if prop == "C17" {
                         evals += 1;
                         let ms = board.max_seen_position_count() as u32;
@@ -724,19 +749,11 @@ pub fn exec(plan: &Plan) -> Outcome {
                 stats.bump("fault/rollback");
                 if plan.register {
                     set_phase("register");
-                    let r = board.uncount_current_position() as u32;
+                    // what unregistering returns is not specified by the property; that it is the exact
+                    // inverse is judged by the snapshot below and by every later count
+                    let _ = board.uncount_current_position();
                     let entry = multiset.get_mut(&top.fingerprint()).unwrap();
                     *entry -= 1;
-                    if prop == "C17" {
-                        evals += 1;
-                        if r != *entry {
-                            violate!(
-                                i,
-                                "C17/unregister/wrong-remaining-count".to_string(),
-                                format!("uncount_current_position returned {} but {} registration(s) of {} remain", r, *entry, top.to_fen())
-                            );
-                        }
-                    }
                 }
                 set_phase("undo");
                 board.toggle_turn();
@@ -923,6 +940,51 @@ pub fn exec(plan: &Plan) -> Outcome {
                     }
                 }
                 board.set_turn(color(cur.stm));
+                if bad.is_none() && prop == "C06" {
+                    // the in-check verdict with the king relocated to every square it could stand on:
+                    // walks the whole attack map through the public verdict, whatever its representation
+                    for side in [Side::White, Side::Black] {
+                        let king = match cur.king_sq(side) {
+                            Some(k) => k,
+                            None => continue,
+                        };
+                        let other_king = cur.king_sq(side.other());
+                        let mut base = cur.clone();
+                        base.sq[king as usize] = None;
+                        base.rights = 0;
+                        base.ep = None;
+                        for s in 0..64u8 {
+                            if base.sq[s as usize].is_some() {
+                                continue;
+                            }
+                            if let Some(ok) = other_king {
+                                if (crate::model::file_of(ok) - crate::model::file_of(s)).abs() <= 1 && (crate::model::rank_of(ok) - crate::model::rank_of(s)).abs() <= 1 {
+                                    continue;
+                                }
+                            }
+                            let mut v = base.clone();
+                            v.sq[s as usize] = Some((P::King, side));
+                            v.stm = side;
+                            let b = build_board(&v, None);
+                            let got = player_is_in_check(&b, &mut gen, color(side));
+                            let want = v.in_check(side);
+                            evals += 1;
+                            if got != want {
+                                let mut fresh = fresh_generator();
+                                let fg = player_is_in_check(&b, &mut fresh, color(side));
+                                bad = Some((
+                                    format!("C06/in-check-verdict/king-relocated/{}", if fg == want { "stale-cache" } else { "wrong" }),
+                                    format!("{}: player_is_in_check({:?}) = {}, model {}", v.to_fen(), side, got, want),
+                                ));
+                                break;
+                            }
+                        }
+                        if bad.is_some() {
+                            break;
+                        }
+                    }
+                    stats.bump("probe/king-relocation-sweep");
+                }
                 if let Some((class, detail)) = bad {
                     if prop == "C06" {
                         violate!(i, class, detail);
